@@ -19,13 +19,13 @@ LEVEL = "model_checking"
 EXH = {
     "quick": {
         "C04": [([1, 2], 2, 6, 2, ["add", "compactall", "reload"], False),
-                ([1, 2, 3], 1, 6, 2, ["add", "addition", "empty", "compactall"], False)],
-        "C05": [([1, 2], 2, 6, 3, ["add", "compactrange"], False)],
+                ([1, 2], 2, 6, 1, ["addition", "empty", "compactall"], False)],
+        "C05": [([1, 2, 3], 1, 6, 3, ["add", "compactrange", "compactall"], False, [1], ["reopen", "clean"])],
         "C06": [([1, 2], 2, 6, 2, ["add", "compactall"], True)],
         "C08": [([1, 2, 3], 1, 5, 2, ["add", "compactall", "clean"], False)],
         "C09": [([1, 2], 2, 6, 2, ["add", "compactall", "reload"], False)],
         "C10": [([1, 2], 3, 4, 1, ["add", "compactrange"], False, [1], ["reload", "reopen"])],
-        "C16": [([1, 2], 2, 6, 2, ["add", "empty", "compactall", "clean"], False)],
+        "C16": [([1, 2], 2, 6, 2, ["add", "empty", "compactall", "clean"], False, [1], ["clean", "empty"])],
     },
     "thorough": {
         "C04": [([1, 2], 3, 7, 2, ["add", "addition", "empty", "compactall", "reload"], False),
